@@ -830,7 +830,8 @@ def man_case(draw):
 @st.composite
 def mo_case(draw):
     eapi = draw(st.integers(0, 8))
-    names = draw(st.lists(st.sampled_from(["de.mo", "pt_BR.mo", "fr.gmo", "en@quot.mo", "po/sv.mo"]), min_size=1, max_size=3, unique=True))
+    names = draw(st.lists(st.sampled_from(["ja_JP.eucJP.mo", "ja_JP.mo", "de_DE.UTF-8.mo", "de.mo", "en@quot.UTF-8.mo", "pt_BR.mo",
+                                             "fr.gmo", "en@quot.mo", "po/sv.mo", "de_DE.mo", "sr@latin.mo"]), min_size=1, max_size=3, unique=True))
     spec = [_file(nm, i) for i, nm in enumerate(names)]
     env = {}
     if draw(st.booleans()):
